@@ -150,3 +150,50 @@ def run_stream(ctx, observers, names=None, nvariants=1, opts=None, procs=None):
     with mp.get_context("spawn").Pool(nproc) as pl:
         res = pl.map(_worker, jobs, chunksize=1)
     return res
+
+
+def replay_stream(ctx, path):
+    """re-run one recorded stream failure (replay file written by ctx.violation)"""
+    import json
+    import common
+    common.import_exo()
+    import exo_build, stream, export_ir, interp
+    from exo.core.configs import Config
+
+    j = json.loads(open(path).read())
+    r = j["replay"]
+    if not r or "src" not in r or "att" not in r:
+        print(f"replay file {path} names a broken obligation / correspondence, nothing to execute: {j.get('what')}")
+        return
+    mod = exo_build.build_module(r["src"])
+    procs = exo_build.procs_of(mod)
+    names = list(procs)
+    p = procs[names[-1]]
+    env = {"callees": {k: procs[k] for k in names[:-1]},
+           "configs": {k: v for k, v in vars(mod).items() if isinstance(v, Config)}}
+    for att in r.get("hist", []):
+        p = stream.apply_attempt(p, att, env)
+    print("--- before\n" + str(p))
+    try:
+        p2 = stream.apply_attempt(p, r["att"], env)
+    except stream.Rejected as e:
+        print(f"the operation is now rejected: {e}")
+        return
+    print("--- after\n" + str(p2))
+    if "input" not in r:
+        return
+    I = interp.Interp()
+    try:
+        pj, _ = export_ir.export(p)
+        pj2, _ = export_ir.export(p2)
+        ra = I.run(pj, [r["input"]])[0]
+        rb = I.run(pj2, [r["input"]])[0]
+    finally:
+        I.close()
+    print("original:", json.dumps(ra)[:600])
+    print("derived :", json.dumps(rb)[:600])
+    bad = interp.compare(ra, rb, modulo={tuple(k) for k in r.get("reported_modulo", [])})
+    if bad:
+        ctx.violation(j["key"], f"{r['att']['op']}: {bad} (replayed)", r)
+    else:
+        print("no difference on the recorded input")
